@@ -167,7 +167,9 @@ func (s *Spec) PlantAll(r *rand.Rand) []Planted {
 			if seenKind[c.kind] >= 1 {
 				continue
 			}
-			seenKind[c.kind]++
+			if s.Provs[c.a].Pkg != "" && s.typePkg(c.t) != s.Provs[c.a].Pkg {
+				continue // a sibling-package provider cannot take a type of another package
+			}
 			cl := s.Clone()
 			pa := cl.Provs[c.a]
 			pos := r.Intn(len(pa.Params) + 1)
@@ -175,6 +177,7 @@ func (s *Spec) PlantAll(r *rand.Rand) []Planted {
 				pos = 0 // the last parameter of a variadic provider stays last
 			}
 			pa.Params = append(pa.Params[:pos], append([]int{c.t}, pa.Params[pos:]...)...)
+			seenKind[c.kind]++
 			if !cl.Interpret(cl.Injectors[0]).Valid() {
 				out = append(out, Planted{Spec: cl, Kind: c.kind, Names: [][]string{provNames(cl, c.a), provNames(cl, c.b)},
 					Note: fmt.Sprintf("provider %s now also takes %s, supplied by %s", pa.Fn, cl.Expr(c.t, ""), cl.Provs[c.b].Fn)})
